@@ -1,6 +1,7 @@
 import PyCliffordModel.Model.Poly
 import PyCliffordModel.Model.Torch
 import PyCliffordModel.Model.Device
+import PyCliffordModel.Model.SBRG
 /-!
 # Driver — line protocol around the executable model (trusted glue: parsing and printing only)
 
@@ -370,6 +371,12 @@ def circOp (s : Sess) (w : List String) : Option (Sess × String) :=
       let c ← s.getC id; let maps ← decMaps maps
       match povm1 c maps with
       | .ok (c', z, _) => pure (s.setC id c', "ok " ++ toString z.r ++ " " ++ encRows z.rows)
+      | .error e => pure (s, encErr e)
+  | [id, "sbrg", n, h, leads, rn, rd, tn, td] => do
+      let n ← n.toNat?; let h ← decPoly h; let leads ← decNats leads
+      let rn ← rn.toNat?; let rd ← rd.toNat?; let tn ← tn.toNat?; let td ← td.toNat?
+      match sbrg h n leads ⟨rn, rd, tn, td⟩ with
+      | .ok (heff, c) => pure (s.setC id c, "ok " ++ encPoly heff)
       | .error e => pure (s, encErr e)
   | [id, "diagpauli", g, i0, causal] => do
       let g ← decStr g; let i0 ← i0.toNat?
